@@ -804,4 +804,8 @@ pub fn run(ctx: &mut Ctx) {
             st.fail(f);
         }
     });
+    // ---- cross-generator stage (see props/cross.rs)
+    ctx.rule.push_str(super::cross::CROSS_RULE);
+    let cross_cases = ctx.tier.pick(super::cross::QUICK_PER_GEN, super::cross::THOROUGH_PER_GEN);
+    super::cross::stage(ctx, "C08", cross_cases);
 }
